@@ -59,6 +59,13 @@ CHECKS = {
  'C04': dict(sec='2/C04', tech='exhaustive enumeration of width x rate x bit order x bit length x output length x container shape (engine P) and explicit-state BFS over duplex call sequences (engine H) against a bit-level reference sponge bound to hashlib',
              text='All 7 widths; every rate 1..b-1 for b<=50 (thorough b<=200) and named rates incl. non-byte rates for the larger widths; both bit orders; every bit length 0..2r+2 (or every residue class near the rate boundaries over 0..2 blocks); 7 output lengths incl. several squeezes; longer containers and bitlen=0; SHA3-224..512 and SHAKE128/256 on every byte length to 2 rate blocks against hashlib; module singletons; all duplex call sequences to depth 3 on 4 (7) geometries with the 25 lanes as state.',
              note='Trusted: hashlib SHA-3/SHAKE and mc/refs/keccak.py (derived round constants / rho offsets, bound to hashlib and a b=200 vector each run).'),
+
+ 'C12': dict(sec='2/C12', tech='exhaustive enumeration of state size x bit length x output length x argument subsets x tree shapes (engine P) and preset UBI tweak positions (engine H) against an independent Threefish/UBI/Skein reference bound to the specification vectors',
+             text='Skein-256/512/1024: every bit length 0..2Nb+9 (256; thorough also 512, 1024 to Nb+137) with and without explicit bitlen and with longer containers; every output length multiple of 8 up to 4Nb; key in 5 classes x all 16 subsets of prs/PK/kdf/nonce; all 27 tree shapes x 8 message sizes incl. empty and the Ym cap; UBI started at positions around 2^32, 2^64 and 2^95.',
+             note='Trusted: mc/refs/skein.py (16 spec vectors per run). Tree hashing with a bit length not exercised; No not a multiple of 8: byte count only.'),
+ 'C17': dict(sec='2/C17', tech='exhaustive enumeration of digest size x mode x key length x message shape x bit length x round count alphabets (engine P) against an independent MD6 reference bound to the specification examples',
+             text='Every d in 1..512 (quick every 5th) in tree and sequential mode; L in {0,1,2,3,64} x 5 key lengths x 27 message lengths covering 1 to 65 leaves and every 512/384 residue boundary; every L\' mod 8 at one-, two- and three-level sizes with longer containers; default and explicit round counts. Shapes run at 12 rounds, where every input word provably reaches the digest (self-tested on the reference).',
+             note='Trusted: mc/refs/md6.py (3 spec examples + 3 published digests + sensitivity self-test per run).'),
 }
 
 PENDING = {}
